@@ -25,7 +25,7 @@
 (***************************************************************************)
 EXTENDS Integers, Sequences, FiniteSets, TLC
 
-CONSTANTS PinnedParent, PinnedFind, PinnedProducer,
+CONSTANTS PinnedParent, PinnedFind, PinnedProducer, PinnedCtx,
           PinnedNoCycleGuard,  \* import_partial_units inlines a unit into itself (before fix 6)
           PinnedPartialOnly    \* fetch_parent_die unwinds the import chain only at DW_TAG_partial_unit roots (before fix 5)
 
@@ -210,19 +210,26 @@ RootVia(F, v, fuel) == LET p == FetchParent(F, v) IN IF Len(p) = 0 \/ fuel = 0 T
 
 \* find_attribute (used by @AT_x and ?AT_x): depth first; `vis': the DIEs already looked at on this search
 \* (the guard against references that lead back -- malformed DWARF -- added with fix 4)
-RECURSIVE FindAttrV(_, _, _, _)
-FindAttrV(F, d, n, vis) ==
+RECURSIVE FindAttrV(_, _, _, _, _)
+\* The result names the attribute, the DIE that holds it (`of') and the DIE in whose context the value is read
+\* (`ctx': its type decides the sign of DW_AT_const_value, its unit's line table the name behind DW_AT_decl_file,
+\* ...).  The context is the holder.  Before fix 39401b0 (PinnedCtx) the value_die of the holder was created for
+\* a chain of length one only; for longer chains the caller fell back to the DIE it had started from.
+FindAttrV(F, d, n, vis, depth) ==
     IF d \in vis THEN [r |-> <<>>, vis |-> vis]
     ELSE LET own == SelectSeq(Die(F, d).attrs, LAMBDA a: a.n = n)
              v1 == vis \cup {d}
-         IN IF Len(own) > 0 THEN [r |-> <<[a |-> own[1], of |-> d]>>, vis |-> v1]
+         IN IF Len(own) > 0 THEN [r |-> <<[a |-> own[1], of |-> d, depth |-> depth]>>, vis |-> v1]
             ELSE IF ~Integrable([n |-> n]) THEN [r |-> <<>>, vis |-> v1]
             ELSE LET first == IF PinnedFind THEN "spec" ELSE "orig"
                      second == IF PinnedFind THEN "orig" ELSE "spec"
-                     r1 == IF RefAttr(F, d, first) # 0 THEN FindAttrV(F, RefAttr(F, d, first), n, v1) ELSE [r |-> <<>>, vis |-> v1]
+                     r1 == IF RefAttr(F, d, first) # 0 THEN FindAttrV(F, RefAttr(F, d, first), n, v1, depth + 1) ELSE [r |-> <<>>, vis |-> v1]
                  IN IF Len(r1.r) > 0 THEN r1
-                    ELSE IF RefAttr(F, d, second) # 0 THEN FindAttrV(F, RefAttr(F, d, second), n, r1.vis) ELSE r1
-FindAttr(F, d, n, fuel) == FindAttrV(F, d, n, {}).r
+                    ELSE IF RefAttr(F, d, second) # 0 THEN FindAttrV(F, RefAttr(F, d, second), n, r1.vis, depth + 1) ELSE r1
+\* the DIE in whose context @AT_x reads the value it found
+FindCtx(F, d, n) == LET r == FindAttrV(F, d, n, {}, 0).r IN
+                    IF Len(r) = 0 THEN 0 ELSE IF PinnedCtx /\ r[1].depth >= 2 THEN d ELSE r[1].of
+FindAttr(F, d, n, fuel) == LET r == FindAttrV(F, d, n, {}, 0).r IN [i \in 1..Len(r) |-> [a |-> r[i].a, of |-> r[i].of]]
 
 -----------------------------------------------------------------------------
 (* properties of one forest *)
@@ -248,5 +255,7 @@ AttrOK(F) ==
        \A n \in {"name", "line", "type", "ext", "sibling", "decl"} :
           LET viaList == CookedAttrNamed(F, d, n) viaFind == FindAttr(F, d, n, 8) IN
           \* @AT_x = attribute ?AT_x cooked; ?AT_x iff that yields
-          (Len(viaList) > 0) = (Len(viaFind) > 0) /\ (Len(viaList) > 0 => viaList[1] = viaFind[1])
+          /\ (Len(viaList) > 0) = (Len(viaFind) > 0) /\ (Len(viaList) > 0 => viaList[1] = viaFind[1])
+          \* ... and reads it in the context of the DIE that holds it, as `attribute' does
+          /\ (Len(viaFind) > 0 => FindCtx(F, d, n) = viaFind[1].of)
 =============================================================================
